@@ -9,6 +9,12 @@ makes, additional key `None`), calls `Machine.transition(index, event.time)` and
 The same operations go to `Driver/C17.lean` (exact integers: weights over 16, draws over 2^53); compared are the
 outcome class, the new state of every simulant, every other column, and the per-simulant entry path.
 
+A second, EXACT stream ("kind": "rows") calls the real `TransitionSet._normalize_probabilities` and
+`randomness.stream._choice` directly on dyadic weight matrices whose normalisation is exact in IEEE arithmetic, with
+draws placed exactly ON, one ulp-of-the-grid below and above every cumulative bin edge and at 0.0 (stream draws never
+hit an edge); decisions are compared strictly. This is where the known finding F9 (`choice-draw0-leading-zero-weight`)
+is reproduced on every run.
+
 Oracle (independent of the Lean model): every transitioned simulant ends in one state reachable by declared
 transitions of positive probability (through transients) or stays where staying is allowed; nobody is moved twice;
 outsiders and other columns are untouched (also on rejected calls); probability-0 (incl. inactive triggered)
@@ -250,6 +256,41 @@ def _run(case):
     return out
 
 
+RDD = 1024        # draw denominator of the exact row-level stream
+
+
+def _bad_weights(so, r):
+    ones = sum(1 for x in r if x == WD)
+    if ones > 1:
+        return "two-ones"
+    if so:
+        return "total-gt-one" if ones == 0 and sum(r) > WD else None
+    return "total-zero" if sum(r) == 0 else None
+
+
+def _run_rows(case):
+    impl.load()
+    import numpy as np
+    import pandas as pd
+    from vivarium.framework.randomness.stream import _choice
+    from vivarium.framework.state_machine import TransitionSet
+
+    ts = TransitionSet("c17_rows", allow_self_transition=bool(case["self"]))
+    ncol = len(case["rows"][0])
+    outs = [f"o{k}" for k in range(ncol)]
+
+    def one(rows, draws):
+        try:
+            o, p = ts._normalize_probabilities(list(outs), np.array(rows, dtype=float) / WD)
+            dec = _choice(pd.Series([d / RDD for d in draws], index=range(len(draws))), o, p)
+            return ["ok", [list(o).index(x) for x in dec.tolist()]]
+        except Exception as e:  # noqa: BLE001
+            return ["err:" + type(e).__name__, []]
+
+    return {"error": None, "whole": one(case["rows"], case["draws"]),
+            "per": [one([r], [d]) for r, d in zip(case["rows"], case["draws"])]}
+
+
 def _paths(idx, log):
     """states entered per simulant label, in order"""
     p = {i: [] for i in idx}
@@ -271,18 +312,20 @@ class C17(Prop):
                  "fuel, the group list and the state list; inverse-CDF lemmas by induction over the weight row) + exact differential "
                  "correspondence with a real Machine inside a real simulation, fed with the draws of the transition sets' streams")
     partial = ("float rounding inside _normalize_probabilities / _choice is idealised as exact rational arithmetic (decisions closer than "
-               "2^-40 to a bin edge are skipped and counted; none occur); the F9 edge (draw exactly 0.0 with a leading zero weight) is "
-               "excluded by hypothesis in prob_zero_never_partial and cannot be produced through a stream; the state table after a "
+               "2^-40 to a bin edge are skipped and counted; none occur; bin edges themselves are hit by the exact row-level stream); the F9 edge (draw exactly 0.0 with a leading zero weight) is "
+               "excluded by hypothesis in prob_zero_never_partial, reproduced on every run by the row-level stream (KNOWN-FINDING) and not reachable through a stream; the state table after a "
                "REJECTED call (partially applied) is explored by the oracle (outsiders untouched) but not modelled")
-    n_quick = 150
+    n_quick = 180
     n_thorough = 2500
     workers = 6
     case_timeout = 60
     rule = ("a case is one simulation with one random machine (2-5 probe states, transient chains, self flags, random transition graph, "
             "per-simulant sixteenths incl. 0 and 1, triggered transitions driven through set_active/set_inactive) and 1-2 time steps of "
             "1-3 scenes; a scene fixes active sets and a current-state assignment and makes 3-8 Machine.transition calls from that same "
-            "assignment (a subset, the same permuted, singletons, overlapping subsets, everybody); distinct by case hash; non-trivial = "
-            "some accepted call moved one simulant and left another where it was")
+            "assignment (a subset, the same permuted, singletons, overlapping subsets, everybody); 20 % of the cases are the exact "
+            "row-level stream instead: a dyadic weight matrix and draws on / next to every bin edge and at 0.0 handed directly to the real "
+            "_normalize_probabilities + _choice (whole matrix and row by row); distinct by case hash; non-trivial = some accepted call "
+            "moved one simulant and left another where it was (rows: two different decisions)")
 
     # ------------------------------------------------------------------ generation
     def _gen_rowset(self, rng, k, n, self_ok, bad_rate):
@@ -290,10 +333,10 @@ class C17(Prop):
         rows = []
         for _ in range(n):
             r = rng.random()
-            if r < bad_rate:
-                kind = rng.choice(["two-ones", "over", "zero"])
+            if r < bad_rate:      # a row the state's transition set must reject
+                kind = rng.choice(["two-ones", "over" if self_ok else "zero"]) if k >= 2 else ("zero" if not self_ok else "normal")
             else:
-                kind = rng.choice(["normal"] * 5 + ["full", "sole", "one-plus", "zero" if self_ok else "normal", "tiny"])
+                kind = rng.choice(["normal"] * 5 + ["full", "sole", "one-plus", "zero" if self_ok else "over", "tiny"])
             row = [0] * k
             if kind == "two-ones" and k >= 2:
                 a, b = rng.sample(range(k), 2)
@@ -333,20 +376,99 @@ class C17(Prop):
             rows.append(row)
         return rows
 
+    def _exact_row(self, rng, k, so, bad):
+        """a weight row (sixteenths) on which _normalize_probabilities is exact: totals are powers of two"""
+        if bad:
+            kind = rng.choice(["two-ones", "over" if so else "zero"]) if k >= 2 else ("zero" if not so else "fine")
+            if kind == "two-ones":
+                row = [0] * k
+                a, b = rng.sample(range(k), 2)
+                row[a] = row[b] = WD
+                return row
+            if kind == "over":
+                return [12, 8] + [rng.choice([0, 4]) for _ in range(k - 2)]
+            if kind == "zero":
+                return [0] * k
+        total = rng.choice([16, 16, 8, 4, 2, 1, 32] if not so else [16, 16, 8, 4, 2, 1, 0, 12, 5])
+        kind = rng.random()
+        if kind < 0.25:                       # a probability 1, alone or with others summing to 1 (rescaled by 2)
+            row = [0] * k
+            c = rng.randrange(k)
+            row[c] = WD
+            if k > 1 and rng.random() < 0.5:
+                left = WD
+                for d in rng.sample([x for x in range(k) if x != c], k - 1):
+                    row[d] = rng.choice([x for x in (0, 4, 8, 12) if x <= left])
+                    left -= row[d]
+                if left and left != WD:
+                    row[[x for x in range(k) if x != c][0]] += left
+                if row.count(WD) > 1:
+                    row = [0] * k
+                    row[c] = WD
+                if sum(row) not in (16, 32):
+                    row = [0] * k
+                    row[c] = WD
+            return row
+        if total == 32 and k < 3:
+            total = 16
+        row = [0] * k
+        left = total
+        for c in rng.sample(range(k), k):
+            row[c] = rng.choice([x for x in (0, 0, 1, 2, 4, 8, 12, 15) if x <= left])
+            left -= row[c]
+        if left:
+            row[rng.randrange(k)] += left
+        if WD in row and sum(row) not in (16, 32):
+            return self._exact_row(rng, k, so, False)
+        if row.count(WD) > 1:
+            return self._exact_row(rng, k, so, False)
+        return row
+
+    def _gen_rows(self, rng):
+        so = int(rng.random() < 0.5)
+        k = rng.choice([1, 2, 2, 3, 3, 4, 5])
+        bad_rate = rng.choice([0.0, 0.0, 0.05, 0.2])
+        rows, draws = [], []
+        for _ in range(rng.randint(1, 10)):
+            r = self._exact_row(rng, k, so, rng.random() < bad_rate)
+            rows.append(r)
+            # cumulative bin edges of the accepted row, as numerators over RDD
+            w = r + ([0 if r.count(WD) == 1 else max(WD - sum(r), 0)] if so else [])
+            tot = sum(w) or 1
+            edges, c = [], 0
+            for x in w:
+                c += x
+                if (c * RDD) % tot == 0:
+                    edges.append(c * RDD // tot)
+            q = rng.random()
+            if q < 0.15:
+                d = 0
+            elif q < 0.75 and edges:
+                d = rng.choice(edges) + rng.choice([0, 0, -1, 1])
+            else:
+                d = rng.randrange(RDD)
+            draws.append(min(max(d, 0), RDD - 1))
+        return {"kind": "rows", "self": so, "rows": rows, "draws": draws}
+
     def generate(self, rng: random.Random, i: int, tier: str):
+        if rng.random() < 0.2:
+            return self._gen_rows(rng)
         big = tier == "thorough"
         n = rng.choice([1, 2, 3, 4, 5, 6, 8, 10] + ([16, 25] if big else []))
         ns = rng.randint(2, 5)
+        chain = ns >= 3 and rng.random() < 0.25      # a chain of transient states that is really walked
         states = []
         for k in range(ns):
             tr = 0 if k == 0 else int(rng.random() < 0.35)
-            states.append([("t" if tr else "s") + str(k), int(rng.random() < 0.5), tr])
-        if rng.random() < 0.5:      # shuffle so that transient states also come first in Machine.states
+            if chain:
+                tr = int(0 < k < ns - 1 or (k == ns - 1 and rng.random() < 0.3))
+            states.append([("t" if tr else "s") + str(k), int(rng.random() < (0.25 if chain and tr else 0.5)), tr])
+        if not chain and rng.random() < 0.5:      # shuffle so that transient states also come first in Machine.states
             rng.shuffle(states)
             if all(s[2] for s in states):
                 states[0][2] = 0
         transient = [bool(s[2]) for s in states]
-        bad_rate = rng.choice([0.0, 0.0, 0.0, 0.02, 0.05, 0.15])
+        bad_rate = rng.choice([0.0, 0.0, 0.03, 0.08, 0.15, 0.3])
         trans = []
         for a in range(ns):
             others = [b for b in range(ns) if b != a and not (transient[a] and transient[b] and b < a)]
@@ -355,12 +477,24 @@ class C17(Prop):
             kmax = len(others)
             k = rng.choice([0, 1, 1, 2, 2, 3, 4])
             k = min(k, kmax)
+            if chain and a < ns - 1:
+                k = max(k, 1)
             if k == 0:
                 continue
             outs = rng.sample(others, k)
+            if chain and a < ns - 1 and a + 1 not in outs:
+                outs[0] = a + 1
             rows = self._gen_rowset(rng, k, n, bool(states[a][1]), bad_rate)
+            if chain and a < ns - 1:                 # most simulants take the next link with high probability
+                c = outs.index(a + 1)
+                for s_ in range(n):
+                    if rng.random() < 0.6 and rows[s_].count(WD) == 0:
+                        rows[s_] = [0] * k
+                        rows[s_][c] = rng.choice([WD, WD, 12])
+                        if rows[s_][c] == 12 and k > 1:
+                            rows[s_][(c + 1) % k] = 4
             for c, b in enumerate(outs):
-                trig = rng.choice([NOT] * 6 + [INACTIVE, INACTIVE, ACTIVE, ACTIVE])
+                trig = rng.choice([NOT] * (14 if chain else 6) + [INACTIVE, INACTIVE, ACTIVE, ACTIVE])
                 trans.append([a, b, trig, [rows[s][c] for s in range(n)]])
         triggered = [tid for tid, t in enumerate(trans) if t[2] != NOT]
         plain = [tid for tid, t in enumerate(trans) if t[2] == NOT]
@@ -445,9 +579,25 @@ class C17(Prop):
         B.append({"n": 2, "seed": 9, "states": [["a", 0, 0], ["t1", 0, 1], ["t2", 0, 1], ["b", 0, 0]],
                   "trans": [[0, 1, NOT, [16, 0]], [0, 3, NOT, [0, 16]], [1, 2, NOT, [16, 16]], [2, 1, NOT, [16, 16]]],
                   "steps": [[{"trig": [], "assign": [0, 0], "calls": [[1], [0, 1]]}]]})
+        # exact row-level stream: the F9 edge (draw 0.0, leading zero weight) and draws exactly on every bin edge
+        for so in (0, 1):
+            B.append({"kind": "rows", "self": so, "rows": [[0, 16], [0, 16]], "draws": [0, 1]})
+            B.append({"kind": "rows", "self": so, "rows": [[0, 8, 8], [0, 0, 16], [4, 0, 4], [4, 0, 4], [4, 0, 4], [8, 8, 0], [8, 8, 0], [16, 0, 0], [0, 16, 0]],
+                      "draws": [0, 0, 0, 512, 513, 512, 1023, 1023, 1]})
+            B.append({"kind": "rows", "self": so, "rows": [[4, 4]] * 5 + [[8, 8]] * 3, "draws": [256, 257, 512, 511, 1023, 512, 513, 0]})
+        B.append({"kind": "rows", "self": 1, "rows": [[16, 8]], "draws": [700]})
+        B.append({"kind": "rows", "self": 1, "rows": [[12, 8]], "draws": [700]})
+        B.append({"kind": "rows", "self": 0, "rows": [[12, 8, 12]], "draws": [384]})
+        B.append({"kind": "rows", "self": 0, "rows": [[4, 4], [0, 0]], "draws": [3, 3]})
+        B.append({"kind": "rows", "self": 1, "rows": [[4, 4], [16, 16]], "draws": [3, 3]})
         return B
 
     def shrink(self, case):
+        if case.get("kind") == "rows":
+            for q in range(len(case["rows"]) - 1, -1, -1):
+                if len(case["rows"]) > 1:
+                    yield dict(case, rows=case["rows"][:q] + case["rows"][q + 1:], draws=case["draws"][:q] + case["draws"][q + 1:])
+            return
         steps = case["steps"]
         for k in range(len(steps) - 1, -1, -1):
             if len(steps) > 1:
@@ -469,7 +619,7 @@ class C17(Prop):
 
     # ------------------------------------------------------------------ implementation
     def run_impl(self, case):
-        return _run(case)
+        return _run_rows(case) if case.get("kind") == "rows" else _run(case)
 
     # ------------------------------------------------------------------ model
     def _walk(self, case, obs):
@@ -483,6 +633,11 @@ class C17(Prop):
     def model_lines(self, case, obs):
         if obs["error"]:
             return []
+        if case.get("kind") == "rows":
+            def line(rows, draws):
+                return (f"sm choose {case['self']} {WD} {RDD} " + ";".join(",".join(map(str, r)) for r in rows) + " "
+                        + ",".join(map(str, draws)))
+            return [line(case["rows"], case["draws"])] + [line([r], [d]) for r, d in zip(case["rows"], case["draws"])]
         spec = Spec(case)
         L = [f"sm new {WD} {DD} {case['n']}"]
         for nm, so, tr in case["states"]:
@@ -502,6 +657,16 @@ class C17(Prop):
     def compare(self, case, obs, replies):
         if obs["error"]:
             return [f"simulation raised outside Machine.transition: {obs['error']}"]
+        if case.get("kind") == "rows":
+            dis = []
+            for tag, (o, dec), r in zip(["whole matrix"] + [f"row {q} alone" for q in range(len(case["rows"]))],
+                                        [obs["whole"]] + obs["per"], replies):
+                t = r.split()
+                if (o == "ok") != (t[0] == "ok"):
+                    dis.append(f"{tag}: impl {o}, model {r[:60]}")
+                elif o == "ok" and dec != [int(x) for x in t[1].split(",")]:
+                    dis.append(f"{tag}: rows {case['rows']} draws {case['draws']}/{RDD}: impl decides {dec}, model {t[1]}")
+            return dis
         dis = []
         it = iter(replies)
         head = 1 + len(case["states"]) + len(case["trans"])
@@ -513,7 +678,7 @@ class C17(Prop):
         for k, j, sc, rec in self._walk(case, obs):
             for (tid, onoff, sims), o in zip(sc["trig"], rec["trig"]):
                 r = next(it)
-                if (o == "ok") != (r == "ok") or (o != "ok" and (o != "err:ValueError" or not r.startswith("err value"))):
+                if (o == "ok") != (r == "ok"):
                     dis.append(f"step {k} scene {j} set_{'active' if onoff == 'on' else 'inactive'} on transition {tid}: impl {o}, model {r}")
             for _ in rec["draws"]:
                 if next(it) != "ok":
@@ -523,13 +688,12 @@ class C17(Prop):
                     dis.append(f"step {k} scene {j}: model refused the assignment")
                 r = next(it)
                 t = r.split()
-                mo = "ok" if t[0] == "ok" else (t[1] if len(t) > 1 else "?")
-                io = OUTCOME.get(call["out"], call["out"])
+                mo = t[0] == "ok"
                 where = f"step {k} scene {j} transition({idx}) from {sc['assign']}"
-                if mo != io:
+                if mo != (call["out"] == "ok"):      # accepted / rejected; exception classes are not compared
                     dis.append(f"{where}: impl {call['out']}, model {r[:60]}")
                     continue
-                if mo != "ok":
+                if not mo:
                     continue
                 mst = [int(x) for x in t[1].split(",")] if t[1] != "-" else []
                 moth = [int(x) for x in t[2].split(",")] if t[2] != "-" else []
@@ -555,6 +719,8 @@ class C17(Prop):
     def oracle(self, case, obs):
         if obs["error"]:
             return [{"sig": "simulation-raised", "msg": obs["error"]}]
+        if case.get("kind") == "rows":
+            return self._oracle_rows(case, obs)
         spec = Spec(case)
         n = case["n"]
         F = []
@@ -595,14 +761,14 @@ class C17(Prop):
                     if call["out"] == "ok":
                         fail("unknown-label-accepted", f"{where}: labels {unknown} are not simulants")
                     continue
-                if call["out"] == "err:ValueError":
-                    if not may:
-                        fail("normalisable-rejected", f"{where}: ValueError although every simulant's weights can be normalised")
-                    continue
-                if call["out"] == "err:RecursionError" and cyc:
-                    continue
                 if call["out"] != "ok":
-                    fail("transition-raised", f"{where}: {call['out']}")
+                    # a rejection (whatever the exception class) is legitimate only if some simulant of the index can meet
+                    # un-normalisable weights on its own way (or an endless chain of transient states)
+                    if not may and not (cyc and call["out"] == "err:RecursionError"):
+                        if call["out"] == "err:ValueError":
+                            fail("normalisable-rejected", f"{where}: ValueError although every simulant's weights can be normalised")
+                        else:
+                            fail("transition-raised", f"{where}: {call['out']}")
                     continue
                 if must:
                     fail("unnormalisable-accepted", f"{where}: accepted although simulant {must[0][0]} has weights "
@@ -625,9 +791,12 @@ class C17(Prop):
                         so = spec.sole_one(active, cur, i)
                         if new == cur and cur < spec.ns and not spec.self_ok[cur]:
                             fail("stayed-without-self-transition", f"{where}: simulant {i} stayed in {sname(case, cur)}")
-                        elif so is not None:
+                        elif so is not None and (not path or path[0] != spec.trans[so][1]):
                             fail("sole-one-not-taken", f"{where}: simulant {i} has a sole probability-1 transition to "
                                                        f"{sname(case, spec.trans[so][1])} but is in {sname(case, new)}")
+                        elif path and new == path[-1] and new < spec.ns and spec.transient[new] and spec.by_from[new] and not spec.self_ok[new]:
+                            fail("stopped-in-transient", f"{where}: simulant {i} entered {[sname(case, s_) for s_ in path]} and was left in the "
+                                                         f"transient state {sname(case, new)}, which has transitions and no self transition")
                         elif zero:
                             fail("prob-zero-taken", f"{where}: simulant {i} took {sname(case, cur)} -> {sname(case, new)} whose probability "
                                                     f"for it is 0 ({'inactive' if zero[0] in active and i not in active[zero[0]] else 'weight 0'})")
@@ -659,10 +828,52 @@ class C17(Prop):
                                                f"index it is transitioned with: {sorted((sname(case, a), [sname(case, s) for s in p]) for a, p in outs)}")
         return F
 
+    def _oracle_rows(self, case, obs):
+        F = []
+        so, rows, draws = bool(case["self"]), case["rows"], case["draws"]
+        k = len(rows[0])
+
+        def check(tag, rs, ds, out):
+            o, dec = out
+            bad = [(r, _bad_weights(so, r)) for r in rs if _bad_weights(so, r)]
+            if o != "ok":
+                if not bad:
+                    F.append({"sig": "normalisable-rejected" if o == "err:ValueError" else "transition-raised",
+                              "msg": f"{tag}: {o} for weights {rs}/16 (self transition {'allowed' if so else 'not allowed'})"})
+                return
+            if bad:
+                F.append({"sig": "unnormalisable-accepted", "msg": f"{tag}: weights {bad[0][0]}/16 ({bad[0][1]}) accepted"})
+                return
+            for r, d, c in zip(rs, ds, dec):
+                what = f"{tag}: weights {r}/16, draw {d}/{RDD}, self transition {'allowed' if so else 'not allowed'}: decided option {c}"
+                if c > k or (c == k and not so):
+                    F.append({"sig": "stayed-without-self-transition", "msg": what})
+                elif c == k:
+                    if (r.count(WD) == 1 or sum(r) == WD) and not (d == 0):
+                        F.append({"sig": "prob-zero-taken", "msg": what + " (the null transition, whose weight is 0)"})
+                elif r[c] == 0:
+                    if d == 0 and c == 0:
+                        F.append({"sig": "choice-draw0-leading-zero-weight", "msg": what + " (weight 0) – draw exactly 0.0"})
+                    else:
+                        F.append({"sig": "prob-zero-taken", "msg": what + " (weight 0)"})
+                elif r.count(WD) == 1 and sum(r) == WD and r[c] != WD:
+                    F.append({"sig": "sole-one-not-taken", "msg": what})
+
+        check("whole matrix", rows, draws, obs["whole"])
+        for q, (r, d, out) in enumerate(zip(rows, draws, obs["per"])):
+            check(f"row {q} alone", [r], [d], out)
+            if obs["whole"][0] == "ok" and out[0] == "ok" and out[1] != [obs["whole"][1][q]]:
+                F.append({"sig": "depends-on-company", "msg": f"row {q} weights {r}/16 draw {d}/{RDD}: decided {out[1][0]} alone, "
+                                                              f"{obs['whole'][1][q]} inside the matrix"})
+        return F
+
     # ------------------------------------------------------------------ reporting
     def nontrivial(self, case, obs):
         if obs["error"]:
             return False
+        if case.get("kind") == "rows":
+            decs = [o[1][0] for o in obs["per"] if o[0] == "ok"]
+            return len(set(decs)) > 1 or (len(case["rows"]) == 1 and bool(decs))
         for k, j, sc, rec in self._walk(case, obs):
             for idx, call in zip(sc["calls"], rec["calls"]):
                 if call["out"] == "ok":
@@ -675,8 +886,33 @@ class C17(Prop):
     def tags(self, case, obs):
         if obs["error"]:
             return ["simulation-error"]
+        if case.get("kind") == "rows":
+            T = {"kind:rows(exact)", "rows:whole-" + ("accepted" if obs["whole"][0] == "ok" else "rejected")}
+            so = bool(case["self"])
+            for r, d, out in zip(case["rows"], case["draws"], obs["per"]):
+                b = _bad_weights(so, r)
+                if b:
+                    T.add("rows:unnormalisable:" + b)
+                    continue
+                w = r + ([0 if r.count(WD) == 1 else WD - sum(r)] if so else [])
+                tot, c, edges = sum(w), 0, []
+                for x in w:
+                    c += x
+                    edges.append(c * RDD)
+                if d == 0:
+                    T.add("rows:draw-zero" + ("-leading-zero-weight(F9)" if r[0] == 0 else ""))
+                if d * tot in edges:
+                    T.add("rows:draw-on-bin-edge")
+                if (d + 1) * tot in edges or (d - 1) * tot in edges:
+                    T.add("rows:draw-next-to-bin-edge")
+                if WD in r and sum(r) > WD:
+                    T.add("rows:one-plus-others(rescaled)")
+                if out[0] == "ok":
+                    T.add("rows:decided-null" if out[1][0] == len(r) else "rows:decided-transition")
+            return sorted(T)
         spec = Spec(case)
         T = set()
+        T.add("kind:machine")
         T.add(f"states:{spec.ns}")
         T.add("pop:" + ("1" if case["n"] == 1 else "2-5" if case["n"] <= 5 else "6+"))
         if any(spec.transient):
@@ -751,6 +987,8 @@ class C17(Prop):
         return sorted(T)
 
     def sample_view(self, case, obs):
+        if case.get("kind") == "rows":
+            return {"case": case, "observed": obs}
         v = {"states": case["states"], "n": case["n"], "n_trans": len(case["trans"]), "trans_head": case["trans"][:2]}
         if not obs["error"] and obs["steps"] and obs["steps"][0]:
             sc, rec = case["steps"][0][0], obs["steps"][0][0]
